@@ -353,7 +353,7 @@ func vfDrain(w *ObjectEntityWatcher) []*ObjectEntityWatcherEvent {
 	var evs []*ObjectEntityWatcherEvent
 	for {
 		select {
-		case ev := <-w.eventChan:
+		case ev := <-w.Watch():
 			evs = append(evs, ev)
 		default:
 			return evs
@@ -650,9 +650,9 @@ func TestVerifC20Supervisor(t *testing.T) {
 					}
 					if vfBurstParkedInSend() {
 						for _, vw := range watches {
-							if len(vw.w.eventChan) == cap(vw.w.eventChan) {
+							if ch := vw.w.Watch(); len(ch) == cap(ch) {
 								vf.Class("registry-blocked-on-a-full-watcher-queue")
-								queued[vw] = append(queued[vw], <-vw.w.eventChan)
+								queued[vw] = append(queued[vw], <-vw.w.Watch())
 							}
 						}
 					} else {
